@@ -283,6 +283,9 @@ func (s *sim) mint(amount *big.Int) *simTx {
 
 // write a snapshot of the given members; `expect` is the simulation's guess
 func (s *sim) snapshot(members []int, node int, expect bool, topo int) {
+	if len(members) == 0 {
+		return
+	}
 	if topo == 0 {
 		topo = s.nextTopo
 		s.nextTopo++
@@ -435,13 +438,25 @@ func genLedger(r *Rand, i int, tier string) []string {
 		case 5:
 			s.spend("submit", true, 0, 0, true)
 		case 6:
-			// claim of a finalized submit
+			// claim of a finalized submit (building what it needs: XIN funds, a finalized submission)
+			if len(s.liveOuts(1)) == 0 {
+				t := s.deposit(1, lgUnits(int64(r.Range(1, 50))), depOpt{validate: true})
+				s.snapshot([]int{t.id}, 1+r.Intn(lgNodes), s.fits([]int{t.id}), 0)
+			}
+			sub := 0
 			for _, id := range s.finalIDs() {
 				if s.txs[id].kind == "submit" {
-					if s.spend("claim", true, 0, id, true) != nil {
-						break
-					}
+					sub = id
 				}
+			}
+			if sub == 0 {
+				if t := s.spend("submit", true, 0, 0, true); t != nil && t.good {
+					s.snapshot([]int{t.id}, 1+r.Intn(lgNodes), s.fits([]int{t.id}), 0)
+					sub = t.id
+				}
+			}
+			if sub != 0 {
+				s.spend("claim", true, 0, sub, true)
 			}
 		case 7:
 			if r.Chance(1, 2) {
